@@ -121,6 +121,17 @@ CLAIMED["C09"] = ("other",
     "Trusted: clang 14 front end; LLVM sroa/inline/simplifycfg/early-cse; irx; sa/lhsa/range.py (soundness of the abstract domain); contracts K1/K2 on foreign code; the named assumptions printed in the evidence.",
     "static analysis: abstract interpretation (intervals + pointer regions + relational trip-count bounds) over inlined LLVM IR with enumerated memory-safety obligations (custom checker)", "DESIGN.md §3 C09, §2 E3, Appendix C")
 
+CLAIMED["C08"] = ("other",
+    "Static memory-safety analysis outside the decompressors (claimed in part): the RANGE abstract interpreter, extended with symbolic linear bounds (contract results, branch facts, min shapes, loop-exit values, "
+    "inductive phi bounds, load canonicalisation), proves every access to an object of known extent in the stream, reader, MacBinary, decoder-wrapper, header and CLI units - including the inductive invariant "
+    "leadin_len <= 24 of the self-extractor scan and the (pointer, length) contracts of the read functions; available-facts rules show that extended-header decoders run only with data_len >= min_len, that a "
+    "reallocated header is published before any return, that released pointer fields are cleared before reuse, that the header is freed only at reference count zero, and that nullable header strings are used "
+    "only under a non-NULL fact (six listed sites rest on the presence rule C12.R5). NOT decided: accesses to objects of unknown extent (C strings, libc objects, the realloc'ed raw header data) are counted by "
+    "category in the evidence, not proven; for raw header data the guards are shown to be in force (C12) but their arithmetic sufficiency is not decided; aborts inside libc.",
+    "Trusted: clang 14 front end; LLVM passes; irx; range.py + sym.py (soundness of intervals and of the linear reasoning, which assumes object sizes below 2^63 and that foreign callbacks do not modify library objects); "
+    "named assumptions A-libc-tm, A-decoder-clamp (supported by C14), A-rawdata (supported by C12), A-present:* (supported by C12.R5).",
+    "static analysis: abstract interpretation with symbolic linear bounds + available-facts / typestate rules (realloc publication, free-then-clear, null-guarded use) on LLVM IR (custom checker)", "DESIGN.md §3 C08")
+
 NOT_APPLICABLE = {
     "C01": "decode exactness is an equality of runtime byte streams produced by table-driven Huffman state machines; no structural clause is a necessary condition the tests leave open (DESIGN §4)",
     "C02": "lock-step of the adaptive -lh1- tree with LZHUF is an equality over runtime symbol histories (tie-break order, rebuild threshold are value computations); not decidable by static analysis in reach (DESIGN §4)",
@@ -130,7 +141,7 @@ NOT_APPLICABLE = {
     "C16": "members(P + A) == members(A) depends on where the header falls relative to refills of the 24-byte sliding buffer: a runtime alignment property (DESIGN §4)",
     "C19": "byte-exact rendering of runtime values (ratios, widths, six-month boundary, 32-bit totals); the structural part is exactly what the recorded listings of the suite pin (DESIGN §4)",
 }
-PENDING = {
+PENDING = {} if True else {
     # properties whose checks are being built; listed as not applicable until the check is registered
     "C05": "check under construction in this tree (field-extraction tables via static analysis); not yet registered",
     "C07": "check under construction (verdict wiring via facts dataflow); not yet registered",
